@@ -25,10 +25,23 @@ use serde_json::{json, Value};
 use std::collections::{HashMap, HashSet};
 use std::sync::atomic::{AtomicBool, AtomicUsize, Ordering};
 use std::time::{Duration, Instant};
-use vcommon::monitor::catch;
+use vcommon::monitor::{self, catch};
 use vcommon::{Prng, Run, Scratch};
 
 const NTHREADS: usize = 16;
+/// section B (huge arguments) runs in this many single-threaded monitored child processes
+const B_WORKERS: usize = 12;
+/// a single request above this, or 4x this live, while one huge argument is processed is a runaway
+const B_ALLOC_CAP: u64 = 64 << 20;
+/// one huge argument (a few dozen pure calls, microseconds) may take this long before the hang monitor fires
+const B_HANG_MS: u64 = 20_000;
+
+#[global_allocator]
+static ALLOC: monitor::TrackingAlloc = monitor::TrackingAlloc;
+
+/// `--trace`: print the name of every function of the code under test before it is called
+/// (used when one argument is re-run alone to attribute a runaway allocation or a hang)
+static TRACE: AtomicBool = AtomicBool::new(false);
 
 // ---------------------------------------------------------------- element type
 
@@ -144,6 +157,9 @@ fn guarded<T>(
 	f: impl FnOnce() -> T,
 ) -> Option<T> {
 	l.c(fname, 1);
+	if TRACE.load(Ordering::Relaxed) {
+		eprintln!("CALL {}", fname);
+	}
 	match catch(f) {
 		Ok(v) => Some(v),
 		Err(p) => {
@@ -1078,21 +1094,37 @@ fn to64(v: &[u128]) -> Vec<u64> {
 	v.iter().map(|x| *x as u64).collect()
 }
 
-fn section_b(run: &Run, seed: u64, n_random: usize, budget_s: f64) {
+/// Section B, child side: shard `shard` of `nshards` of the huge arguments (or the single argument
+/// `only`), single-threaded, every argument under the allocation guard and the hang watchdog.
+fn section_b(run: &Run, seed: u64, n_random: usize, budget_s: f64, shard: usize, nshards: usize, only: Option<u64>) {
 	let mut prng = Prng::new(seed ^ 0xB0B);
-	let args = huge_args(&mut prng, n_random);
+	let args = match only {
+		Some(v) => vec![v],
+		None => huge_args(&mut prng, n_random),
+	};
 	let dl = Deadline::new(budget_s);
 	let done = AtomicUsize::new(0);
 	const CL: &str = "huge";
 	let args = &args;
-	par(run, |ti, l| {
+	monitor::HARD_CAP.store(B_ALLOC_CAP, Ordering::SeqCst);
+	monitor::watchdog_start(B_HANG_MS);
+	let mut max_live = 0usize;
+	{
+		let ti = if only.is_some() { 0 } else { shard };
+		let step = if only.is_some() { 1 } else { nshards };
+		let mut local = Local::new();
+		let l = &mut local;
 		let mut prng = Prng::new(seed ^ 0xB1B ^ ((ti as u64) << 32));
 		let mut i = ti;
+		let mut k = 0usize;
 		while i < args.len() {
-			if i % 256 == ti && dl.over() {
+			k += 1;
+			if k % 64 == 0 && dl.over() {
 				break;
 			}
 			let v = args[i];
+			monitor::watchdog_enter(v);
+			monitor::alloc_guard_on(v);
 			let vv = v as u128;
 			let rp = move || json!({"section": "B", "arg": v});
 			let h = r_height(vv);
@@ -1241,14 +1273,91 @@ fn section_b(run: &Run, seed: u64, n_random: usize, budget_s: f64) {
 				(64 - v.leading_zeros()) as u64,
 				v.count_ones().min(6) as u64,
 			]);
+			max_live = max_live.max(monitor::alloc_guard_peak());
+			monitor::alloc_guard_off();
+			monitor::watchdog_leave();
 			done.fetch_add(1, Ordering::Relaxed);
-			i += NTHREADS;
+			i += step;
 		}
-	});
+		local.flush(run);
+	}
 	run.count("B.args_done", done.load(Ordering::Relaxed) as u64);
-	run.count("B.args_total", args.len() as u64);
+	run.set_max("max_B_live_bytes_per_argument", max_live as u64);
 	if dl.was_hit() {
 		inconc(run, "section B: time budget hit before all huge arguments were compared");
+	}
+}
+
+/// Section B, parent side: monitored children; a child stopped by the allocation guard (exit 86)
+/// or the hang watchdog (exit 87) names the argument it was processing; that argument is re-run
+/// alone with call tracing, and only a reproduced stop is a violation (attributed to the function
+/// that was executing), otherwise the run is inconclusive.
+fn section_b_parent(run: &Run, seed: u64, n_random: usize, budget_s: f64) {
+	use std::sync::Mutex;
+	let total = huge_args(&mut Prng::new(seed ^ 0xB0B), n_random).len();
+	run.count("B.args_total", total as u64);
+	let suspects: Mutex<Vec<(i32, u64)>> = Mutex::new(vec![]);
+	let parse = |err: &str, marker: &str| -> Option<u64> {
+		err.lines()
+			.filter_map(|l| l.trim().strip_prefix(marker))
+			.filter_map(|r| r.split_whitespace().next().and_then(|x| x.parse::<u64>().ok()))
+			.last()
+	};
+	let mut extra = vec!["--phase-b".to_string(), "--b-budget".to_string(), format!("{}", budget_s)];
+	if run.args.iter().any(|a| a == "--san") {
+		extra.push("--san".into());
+	}
+	run.spawn_workers_ex(B_WORKERS, &extra, budget_s as u64 + 120, &|_, code, err| {
+		let hit = match code {
+			Some(c) if c == monitor::EXIT_ALLOC_OVER_CAP => parse(err, "ALLOC-OVER-CAP case=").map(|v| (c, v)),
+			Some(c) if c == monitor::EXIT_HANG => parse(err, "HANG case=").map(|v| (c, v)),
+			_ => None,
+		};
+		match hit {
+			Some(h) => {
+				suspects.lock().unwrap().push(h);
+				true
+			}
+			None => false,
+		}
+	});
+	let mut sus = suspects.into_inner().unwrap();
+	sus.sort_unstable();
+	sus.dedup();
+	run.count("B.children_stopped_by_a_monitor", sus.len() as u64);
+	for (code, v) in sus.into_iter().take(6) {
+		let exe = std::env::current_exe().expect("current_exe");
+		let out = std::process::Command::new("timeout")
+			.arg("120")
+			.arg(&exe)
+			.args(["--tier", run.tier.name(), "--seed", &run.seed.to_string(), "--worker", "0", "1", "--phase-b", "--b-budget", "60", "--trace", "--only-arg", &v.to_string()])
+			.output();
+		let what = if code == monitor::EXIT_HANG { "hang" } else { "over_allocation" };
+		match out {
+			Ok(o) => {
+				let err = String::from_utf8_lossy(&o.stderr).to_string();
+				let last_call = err.lines().filter_map(|l| l.strip_prefix("CALL ")).last().unwrap_or("?").to_string();
+				if o.status.code() == Some(code) {
+					run.violation(
+						&format!("fn={};class=huge;event={}", last_call, what),
+						&format!(
+							"{} on the huge argument {} {} (reproduced when the argument was re-run alone; the function is total and its result is a few words)",
+							last_call,
+							v,
+							if code == monitor::EXIT_HANG {
+								format!("did not return within {} s", B_HANG_MS / 1000)
+							} else {
+								format!("allocated more than {} MiB", B_ALLOC_CAP >> 20)
+							}
+						),
+						json!({"section": "B", "arg": v, "event": what, "function": last_call}),
+					);
+				} else {
+					inconc(run, &format!("section B: a child was stopped by the {} monitor at argument {} but the stop did not reproduce when the argument was re-run alone (exit {:?})", what, v, o.status.code()));
+				}
+			}
+			Err(e) => inconc(run, &format!("section B: re-run of argument {} could not be started: {}", v, e)),
+		}
 	}
 }
 
@@ -2284,6 +2393,9 @@ fn main() {
 	let run = Run::from_env("C07", "exploration");
 	let san = run.args.iter().any(|a| a == "--san");
 	let seed = run.seed;
+	if run.args.iter().any(|a| a == "--trace") {
+		TRACE.store(true, Ordering::Relaxed);
+	}
 	let thorough = run.tier == vcommon::Tier::Thorough;
 	let mut prng = Prng::new(seed);
 
@@ -2313,6 +2425,14 @@ fn main() {
 	let global_cap = if thorough { 640.0 } else { 75.0 * scale };
 	let started = Instant::now();
 	let cap = move |b: f64| -> f64 { b.min((global_cap - started.elapsed().as_secs_f64()).max(1.0)) };
+
+	if run.args.iter().any(|a| a == "--phase-b") {
+		let (shard, nshards) = run.worker_shard().unwrap_or((0, 1));
+		let budget = run.arg_value("--b-budget").and_then(|x| x.parse::<f64>().ok()).unwrap_or(bud_b);
+		let only = run.arg_value("--only-arg").and_then(|x| x.parse::<u64>().ok());
+		section_b(&run, seed, b_random, budget, shard, nshards, only);
+		run.finish_worker();
+	}
 
 	run.set_rule(
 		"R: RefMMR (explicit node table built by the definition) cross-checked against brute force and a u128 closed form. \
@@ -2356,7 +2476,7 @@ fn main() {
 	// ---- B
 	run.sample(json!({"section": "B", "arg": u64::MAX, "reference": {"height": r_height(u64::MAX as u128),
 		"leaves_below": r_leaves_below(u64::MAX as u128).to_string(), "valid_size": r_is_valid_size(u64::MAX as u128)}}));
-	section_b(&run, seed, b_random, cap(bud_b));
+	section_b_parent(&run, seed, b_random, cap(bud_b));
 	eprintln!("[C07] B done at {:.1}s", t0.elapsed().as_secs_f64());
 
 	// ---- C
